@@ -188,6 +188,23 @@ func c16Check(c c16Case) error {
 	if inPlace {
 		cloneTarget = abig[4+a.Len():]
 	}
+	// the caller asks the original about a label that only the tail will define - the last question before the clone is
+	// made, and the first one after it has been appended
+	asked := ""
+	dl := snapOf(d).labels
+	for _, n := range allLabelNames {
+		if _, inHead := atSplit.snap.labels[n]; !inHead {
+			if _, inAll := dl[n]; inAll {
+				asked = n
+				break
+			}
+		}
+	}
+	if asked != "" {
+		if v, ok := a.GetLabel(asked); ok {
+			return fmt.Errorf("GetLabel(%q) on the original before the tail was emitted = ($%06x, true)", asked, v)
+		}
+	}
 	cl := a.Clone(cloneTarget)
 	var sib *asm.Emitter
 	if c.Sibling {
@@ -238,6 +255,13 @@ func c16Check(c c16Case) error {
 	}
 	if pan != nil {
 		return fmt.Errorf("Append panicked although the tail (%d bytes) fits (%d free): %v", tailBytes, acap-atSplit.snap.n, pan)
+	}
+	if asked != "" {
+		v1, ok1 := a.GetLabel(asked)
+		v2, ok2 := d.GetLabel(asked)
+		if v1 != v2 || ok1 != ok2 {
+			return fmt.Errorf("GetLabel(%q) asked of the original right before Clone and again right after Append = ($%06x, %v), the direct emitter says ($%06x, %v)", asked, v1, ok1, v2, ok2)
+		}
 	}
 	if df := observe(d).diffMasked(observe(a), mask); df != "" {
 		return fmt.Errorf("after Clone+Append the emitter differs from one that received the whole sequence (split at %d of %d): %s", c.Split, len(c.Ops), df)
@@ -391,7 +415,7 @@ func TestC16(t *testing.T) {
 	rig.Main(t, "C16", "rapid: an emitter history (labels, references on both sides, data, comments, optional base, width assumptions, refused calls) x every kind of split point x listing on/off: "+
 		"the head goes to an emitter A, the tail to A.Clone(), then A.Append(clone) (in a third of the cases a second clone of A receives the same tail one byte further on and is discarded); a direct emitter D receives the whole history.  Before Append A must equal its snapshot at the split on bytes, "+
 		"length, PC, flags, all labels and both listings although the clone was emitted into, listed and finalised; after Append A must equal D on all of these, on Finalize()'s verdict and on the "+
-		"finalized bytes; an Append that is 1..n bytes too large must panic and leave A unchanged; in a quarter of the cases Finalize is also called at the split point on both sides; programs that run across a bank boundary are split at every point.  Non-trivial = a label is defined on one side of the split and referenced on the other; distinct = hash(case).",
+		"finalized bytes; an Append that is 1..n bytes too large must panic and leave A unchanged; in a quarter of the cases Finalize is also called at the split point on both sides; programs that run across a bank boundary are split at every point; tails define 255-512 labels; the original is asked about a label of the tail right before Clone and right after Append.  Non-trivial = a label is defined on one side of the split and referenced on the other; distinct = hash(case).",
 		func(r *rig.Run) {
 			ev := r.Ev
 			// programs that run across a bank boundary (base 8 bytes below it), a label on either side, the same label defined
@@ -408,6 +432,23 @@ func TestC16(t *testing.T) {
 							ev.Case(true, rig.Hash64("cross-bank", base, split, listing), func() interface{} { return c })
 							ev.Class("program-runs-across-a-bank-boundary")
 						}
+					}
+				}
+			}
+			// tails that define several hundred labels (and refer to some of them from the head and from the tail)
+			if rig.Shard() == 1%rig.Shards() {
+				nop := asmcat.Op{Kind: "ins", Method: "NOP"}
+				for _, n := range []int{255, 256, 257, 512} {
+					ops := []asmcat.Op{nop, {Kind: "ins", Method: "JMP_abs", Label: "g0"}, {Kind: "ins", Method: "JMP_abs", Label: fmt.Sprintf("g%d", n-1)}}
+					for i := 0; i < n; i++ {
+						ops = append(ops, asmcat.Op{Kind: "label", Label: fmt.Sprintf("g%d", i)}, nop)
+					}
+					ops = append(ops, asmcat.Op{Kind: "ins", Method: "JMP_abs", Label: fmt.Sprintf("g%d", n/2)}, asmcat.Op{Kind: "ins", Method: "BRA", Label: fmt.Sprintf("g%d", n-1)})
+					for _, split := range []int{0, 3, 3 + n, len(ops) - 2} {
+						c := c16Case{Ops: ops, Split: split, Listing: n%2 == 0}
+						r.CheckSweep("rapid", c, func() error { return c16Check(c) })
+						ev.Case(true, rig.Hash64("many-labels", n, split), nil)
+						ev.Class("tail-defines-several-hundred-labels")
 					}
 				}
 			}
